@@ -1,6 +1,7 @@
 import LarkVerif.Transform
 import LarkVerif.TransformEmbed
 import LarkVerif.TransformInPlace
+import LarkVerif.IterSubtrees
 /-! # C16 — embedded transformer equals transforming afterwards; variants agree -/
 namespace Props.C16
 open ShapeProto EmbedProto
@@ -30,5 +31,14 @@ theorem inplace_eq_recursive {V : Type} (f : Nat → List V → V) (g : Nat → 
     (hrun : TrProto.Steps f g (TrProto.MF.ofForest (.node d kids .nil)) (.node d (some vs) kids' .nil)) :
     [f d vs] = TrProto.tr f g (.node d kids .nil) :=
   TrProto.inplace_eq_recursive f g d kids kids' vs hrun
+
+/-- **`iter_subtrees` yields children before parents, and every subtree** (the order `Transformer_InPlace.transform` and the visitors walk in; the
+    hypothesis of `inplace_eq_recursive`): the queue loop of `Tree.iter_subtrees` on a proper tree, reversed. -/
+theorem iter_subtrees_children_first (t : IterProto.T) (l1 : List IterProto.T) (x : IterProto.T) (l2 : List IterProto.T)
+    (h : IterProto.iterSubtrees t = l1 ++ x :: l2) : ∀ c ∈ x.kids, c ∈ l1 :=
+  IterProto.iter_subtrees_children_first t l1 x l2 h
+
+theorem iter_subtrees_complete (t x : IterProto.T) (h : IterProto.Sub t x) : x ∈ IterProto.iterSubtrees t :=
+  IterProto.iter_subtrees_complete t x h
 
 end Props.C16
